@@ -413,7 +413,7 @@ func parseFunParams(s string) []FunParam {
 var modsets = map[string]string{}
 
 var clauseKW = map[string]bool{"fun": true, "modset": true, "pred": true, "func": true, "lemma": true, "props": true, "requires": true,
-	"modifies": true, "allocs": true, "ensures": true, "loop": true, "inline": true, "trusted": true, "assert": true, "case": true, "locks": true, "locked": true, "guarded": true, "hints": true, "ghost": true}
+	"modifies": true, "allocs": true, "ensures": true, "loop": true, "inline": true, "trusted": true, "assert": true, "case": true, "locks": true, "locked": true, "guarded": true, "hints": true, "ghost": true, "jsonclosed": true, "onlypassedto": true}
 
 func (P *Program) loadContracts() error {
 	for name, pkg := range P.Pkgs {
@@ -513,6 +513,13 @@ func (P *Program) loadContractFile(pkg, file string) error {
 				return fmt.Errorf("%s:%d: guarded needs 'protects'", file, rc.line)
 			}
 			P.Guards = append(P.Guards, &GuardDef{Pkg: pkg, Mutex: strings.TrimSpace(rc.text[:k]), Items: splitTop(rc.text[k+len("protects"):], ',')})
+			cur = nil
+		case "jsonclosed", "onlypassedto":
+			sd, err := parseStructDirective(pkg, rc.kw, rc.text, file, rc.line)
+			if err != nil {
+				return err
+			}
+			P.Structs = append(P.Structs, sd)
 			cur = nil
 		case "ghost":
 			// ghost <name> <Go type>: a specification-only variable, modelled as a field of one ghost object per
